@@ -71,6 +71,7 @@ func cmdFunc(args []string) int {
 	dump := fs.String("dump", "", "dump SMT of obligations whose name contains this")
 	timeout := fs.Duration("timeout", 10*time.Second, "per-obligation timeout")
 	verbose := fs.Bool("v", false, "verbose")
+	evals := fs.String("eval", "", "semicolon-separated spec expressions to evaluate in the model of each failed obligation (post-state env)")
 	name := args[0]
 	fs.Parse(args[1:])
 	w, err := loadWorldWithSpecs()
@@ -102,6 +103,34 @@ func cmdFunc(args []string) int {
 			fmt.Printf("  %-7s %-70s %s %.2fs  at %s\n", r.Status, r.Obl.Name, r.Solver, r.Seconds, r.Obl.Pos)
 			if r.Status == "failed" {
 				fmt.Printf("          model: %s\n", modelSummary(r.Model, 14))
+				if *evals != "" {
+					env := x.postEnv
+					if env == nil {
+						env = x.rootEnv
+					}
+					var watch []*Term
+					var names []string
+					for _, es := range strings.Split(*evals, ";") {
+						es = strings.TrimSpace(es)
+						n, err := ParseSpecExpr(es)
+						if err != nil {
+							fmt.Println("          eval:", err)
+							continue
+						}
+						var t *Term
+						if err := safeEval(func() { t = env.term(env.eval(n)) }); err != nil {
+							fmt.Println("          eval:", err)
+							continue
+						}
+						watch = append(watch, t)
+						names = append(names, es)
+					}
+					sr := Solve(x.buildQueryWatch(r.Obl, watch), "eval", 20*time.Second)
+					vals := parseGetValue(sr.Raw)
+					for i, n := range names {
+						fmt.Printf("          eval %s = %s\n", n, vals[fmt.Sprintf("w!%d", i)])
+					}
+				}
 			}
 			if r.Status == "unknown" && strings.Contains(r.Raw, "error") {
 				fmt.Printf("          solver said: %s\n", truncateStr(r.Raw, 300))
